@@ -14,6 +14,9 @@
   other field value and every state — message 3: `.ok false`, the check precedes `divModP`, so no
   panic either; `c12_exponent_plus_q_rejected_1..4`, `c12_exponent_zero_rejected_1..4`: in particular
   d + q in place of d, and d = 0, in each exponent position of each message.
+  `toSmp1..4_wrong_count` / `toSmp1..4_isSome_iff` / `toSmp_genSMPTLV_wrong_count` (repaired code): the
+  payload parsers accept exactly 6 / 11 / 8 / 3 MPIs — a TLV with one MPI more or fewer (any other
+  count, any list) is refused (`processSMPTLV` then throws "corrupt data message").
   Recovery: every rejected message leaves the machine in EXPECT1 (transition facts regenerated from
   /repo: Props.FactsOk.transitions_smpState) from which `c11_equal_success` applies.
   Not a theorem: computational soundness of the proofs against a cheater who deviates within the
@@ -83,5 +86,35 @@ theorem group_facts_of_arithOK : type_of% @Otr.group_facts_of_arithOK := @Otr.gr
 theorem processSMPTLV_safe : type_of% @Otr.ConvData.processSMPTLV_safe := @Otr.ConvData.processSMPTLV_safe
 
 theorem processSMPTLV_wf : type_of% @Otr.ConvData.processSMPTLV_wf := @Otr.ConvData.processSMPTLV_wf
+
+/-- repaired code: SMP1 payload with an MPI count other than 6 is rejected -/
+theorem toSmp1_wrong_count : type_of% @Otr.toSmp1_wrong_count := @Otr.toSmp1_wrong_count
+
+/-- repaired code: SMP2 payload with an MPI count other than 11 is rejected -/
+theorem toSmp2_wrong_count : type_of% @Otr.toSmp2_wrong_count := @Otr.toSmp2_wrong_count
+
+/-- repaired code: SMP3 payload with an MPI count other than 8 is rejected -/
+theorem toSmp3_wrong_count : type_of% @Otr.toSmp3_wrong_count := @Otr.toSmp3_wrong_count
+
+/-- repaired code: SMP4 payload with an MPI count other than 3 is rejected -/
+theorem toSmp4_wrong_count : type_of% @Otr.toSmp4_wrong_count := @Otr.toSmp4_wrong_count
+
+/-- a payload whose MPI list cannot be read is rejected by all four parsers -/
+theorem toSmp_unparsable : type_of% @Otr.toSmp_unparsable := @Otr.toSmp_unparsable
+
+/-- exact acceptance condition of the SMP1 payload parser -/
+theorem toSmp1_isSome_iff : type_of% @Otr.toSmp1_isSome_iff := @Otr.toSmp1_isSome_iff
+
+/-- exact acceptance condition of the SMP2 payload parser -/
+theorem toSmp2_isSome_iff : type_of% @Otr.toSmp2_isSome_iff := @Otr.toSmp2_isSome_iff
+
+/-- exact acceptance condition of the SMP3 payload parser -/
+theorem toSmp3_isSome_iff : type_of% @Otr.toSmp3_isSome_iff := @Otr.toSmp3_isSome_iff
+
+/-- exact acceptance condition of the SMP4 payload parser -/
+theorem toSmp4_isSome_iff : type_of% @Otr.toSmp4_isSome_iff := @Otr.toSmp4_isSome_iff
+
+/-- what the sender serialises for a list of the wrong length is rejected, for every list -/
+theorem toSmp_genSMPTLV_wrong_count : type_of% @Otr.toSmp_genSMPTLV_wrong_count := @Otr.toSmp_genSMPTLV_wrong_count
 
 end Otr.C12
